@@ -448,6 +448,9 @@ func (g *Gen) Next() *Op {
 		} else {
 			op.Digest = g.manifestDigest(op.Repo)
 		}
+		if !g.Cfg.HTTPSafe && g.C.Bool("ref.nodigest", 1, 12) {
+			op.Digest = "" // (HTTP has no way of asking this)
+		}
 		op.StopAfter = g.stop()
 	case UpStart:
 		op.Repo = g.writeRepo()
